@@ -12,7 +12,8 @@ for q in sorted(glob.glob("/verif/seeded/*/meta.json")):
     if rnd < 2:
         continue
     h = m.get("history") or ""
-    if h.startswith("missed"):
+    h = re.sub(r"^round \d+: [^;]*; ", "", h)
+    if h.startswith("missed") or h.startswith("not caught by"):
         res = "**missed at first**: " + re.sub(r"^missed by the ", "", h)
     else:
         res = "caught" if m["check"]["exit"] == 1 else "**MISSED**: " + re.sub(r"^NOT caught[,:]? ?", "", h)
